@@ -168,7 +168,8 @@ func c01Opts() bridge.GenOpts {
 	o.NoFunds = true
 	o.BigAmounts = true
 	o.Holders = true
-	o.Weights = map[string]int{"deposit": 16, "transfer": 14, "send": 26, "xexec": 14, "cancel": 8, "send2": 3}
+	o.Weights = map[string]int{"deposit": 16, "transfer": 14, "send": 26, "xexec": 14, "cancel": 8, "send2": 3, "byz": 7}
+	o.MaxVals = 5
 	o.TimeoutMs = []uint64{20000, 60000, 86400000 - 1}
 	return o
 }
@@ -176,7 +177,7 @@ func c01Opts() bridge.GenOpts {
 func TestC01(t *testing.T) {
 	(&pbt.Check{
 		ID:   "C01",
-		Rule: "whole-bridge histories in which hub users own nothing but what external deposits brought in: deposits and cross-chain transfers of any amount/fee/destination (decimals 0..24, commissions, holder discounts), sends, cancels, batch requests, executions, timeouts, expiry; after every step supply + in-flight - executed-but-unobserved <= custody in exact rationals; non-trivial = >=1 applied deposit with fee>0 or decimals!=18, >=1 executed batch and >=1 cancel/expiry/timeout; distinct = distinct case JSON",
+		Rule: "whole-bridge histories in which hub users own nothing but what external deposits brought in: deposits and cross-chain transfers of any amount/fee/destination (decimals 0..24, commissions, holder discounts), sends, cancels, batch requests, executions, timeouts, expiry, and a Byzantine validator (< 1/3 of the power) claiming mutated copies of external events before the honest ones; after every step supply + in-flight - executed-but-unobserved <= custody in exact rationals; non-trivial = >=1 applied deposit with fee>0 or decimals!=18, >=1 executed batch and >=1 cancel/expiry/timeout; distinct = distinct case JSON",
 		Gen:  bridge.GenCase(c01Opts()),
 		New:  func() interface{} { return &bridge.Case{} },
 		Run: func(ci interface{}, rec *pbt.Rec) *pbt.Failure {
@@ -193,7 +194,7 @@ func TestC01(t *testing.T) {
 				}
 			}
 			rec.NonTrivial = (it.Stats["transfer"] > 0 || (odd && it.Stats["deposit"] > 0)) && it.Stats["exec-batch"] > 0 && (it.Stats["cancel-ok"] > 0 || pl.Returned > 0)
-			labelStats(rec, it, "deposit", "transfer", "exec-batch", "cancel-ok", "send-ok")
+			labelStats(rec, it, "deposit", "transfer", "exec-batch", "cancel-ok", "send-ok", "byz-claim")
 			if pl.Returned > 0 {
 				rec.Label("batch-timeout-or-older-cancel")
 			}
